@@ -2,6 +2,8 @@
 //verif:replace (*encoding/base64.Encoding).DecodeString = c10Decode
 //verif:replace regexp.Compile = c10Compile
 //verif:replace path/filepath.Glob = c10Glob
+//verif:replace (*regexp.Regexp).Match = c10Match
+//verif:replace@C10f (*github.com/mimecast/dtail/internal/user/server.User).HasFilePermission = c10Perm
 //verif:replace (*github.com/mimecast/dtail/internal/mapr/server.Aggregate).aggregateTimer = c10NoTimer
 
 package handlers
@@ -13,9 +15,12 @@ import (
 	"regexp"
 	"time"
 
+	"github.com/mimecast/dtail/internal/config"
 	"github.com/mimecast/dtail/internal/io/dlog"
+	"github.com/mimecast/dtail/internal/io/fs"
 	"github.com/mimecast/dtail/internal/mapr/server"
 	"github.com/mimecast/dtail/internal/source"
+	user "github.com/mimecast/dtail/internal/user/server"
 	"github.com/mimecast/dtail/internal/verifrt"
 )
 
@@ -40,8 +45,20 @@ func c10Compile(expr string) (*regexp.Regexp, error) {
 	return nil, errors.New("invalid regexp")
 }
 
-// no file matches (the file layer is exercised by C01-C04, C08)
-func c10Glob(pattern string) ([]string, error) { return nil, nil }
+// no file matches (the file layer is exercised by C01-C04, C08), except in
+// C10f, which provides in-memory files
+func c10Glob(pattern string) ([]string, error) {
+	if _, ok := fs.VerifFiles[pattern]; ok {
+		return []string{pattern}, nil
+	}
+	return nil, nil
+}
+
+// a line matches if it starts with 'x'
+func c10Match(re *regexp.Regexp, b []byte) bool { return len(b) > 0 && b[0] == 'x' }
+
+// permissions are the subject of C08
+func c10Perm(u *user.User, filePath, permissionType string) bool { return true }
 
 // the periodic serialisation timer is not started: "interval 0" makes it spin
 // (CPU exhaustion, outside C10); crashes are what is looked for here
@@ -184,5 +201,43 @@ func VerifC10dSequence(k, subset int) {
 		}
 	}
 	verifrt.Sleep(70 * time.Second)
+	verifrt.Reach("survived")
+}
+
+var c10fValues = []string{"-2", "-1", "0", "1", "2", "99999999999999999999", "x", ""}
+
+// VerifC10fReadOptions: a read command (grep, cat or tail) on a file that
+// exists, with every combination of client-supplied before/after/max values
+// out of {-2,-1,0,1,2, a number beyond int64, a non-number, empty}: the
+// command runs through the real file layer (reader, filters, context state
+// machine) and no goroutine of the server panics.
+func VerifC10fReadOptions(mode int) {
+	dlog.VerifInstall(source.Server)
+	c10KnownPanics()
+	config.Server.Permissions = config.Permissions{Default: []string{"^/.*$"}}
+	config.Server.MaxLineLength = 1024
+	fs.VerifFiles = nil
+	path := fs.VerifProvideNamed("/var/log/x.log", []byte("a\nx1\nb\nx2\nc\n"))
+	h := VerifNewServerHandler(false, false, false, 2, 2)
+	go func() {
+		p := make([]byte, 4096)
+		for {
+			if _, err := h.Read(p); err != nil {
+				return
+			}
+		}
+	}()
+	word := []string{"grep", "cat", "tail"}[mode]
+	opts := ""
+	for _, name := range []string{"before", "after", "max"} {
+		if v := verifrt.Choose(name, len(c10fValues)+1); v > 0 {
+			opts += ":" + name + "=" + c10fValues[v-1]
+		}
+	}
+	c10Payload = word + opts + " " + path + " regex:default x"
+	h.Write([]byte("protocol 4.1 base64 @;"))
+	verifrt.Sleep(20 * time.Second)
+	h.VerifShutdown()
+	verifrt.Sleep(5 * time.Second)
 	verifrt.Reach("survived")
 }
